@@ -29,6 +29,9 @@ Inductive step :=
 | SSuppressDec           (* Drop for LogSuppressLock *)
 | SGetOrInit (c : cell)  (* OnceLock::get_or_init *)
 | SReadEnv               (* std::env::var("PRQL_VERSION_OVERRIDE") *)
+| SGenName               (* NameGenerator::gen / IdGenerator::gen (utils/id_gen.rs) on a generator OWNED by the call: the
+                            generators live in the call's AnchorContext / Lowerer / Resolver, no static holds one (inventory:
+                            no static, atomic or thread_local row); what is read is the call's own counter *)
 | SLogStart              (* debug::log_start  -- API call, never issued by compile *)
 | SLogFinish.            (* debug::log_finish -- API call, never issued by compile *)
 
@@ -63,6 +66,7 @@ Section Machine.
         | None => (mkG (g_log g) (g_poisoned g) ((c, cell_init c) :: g_cells g), ORead (cell_init c), held)
         end
     | SReadEnv => (g, ORead env, held)
+    | SGenName => (g, ONone, held)                 (* touches no global; the name is produced in [tstep] from the call's counter *)
     | SLogStart =>
         (* `CURRENT_LOG.write().unwrap_or_else(|e| e.into_inner())`, then the slot is overwritten: a log left over
            from a compilation that panicked is discarded; works on a poisoned lock too (the poison flag stays) *)
@@ -99,19 +103,21 @@ Section Machine.
           end
     end.
 
-  Record thread := mkT { t_todo : list step; t_reads : list N; t_held : nat; t_panicked : bool }.
+  (* t_gen: the call's name counter (`table_N`, `_expr_N`): created with the call, 0 at its start *)
+  Record thread := mkT { t_todo : list step; t_reads : list N; t_held : nat; t_gen : nat; t_panicked : bool }.
 
-  Definition spawn (prog : list step) : thread := mkT prog [] O false.
+  Definition spawn (prog : list step) : thread := mkT prog [] O O false.
 
   Definition tstep (g : gstate) (t : thread) : gstate * thread :=
     if t_panicked t then (g, t)
     else match t_todo t with
          | [] => (g, t)
+         | SGenName :: rest => (g, mkT rest (t_reads t ++ [N.of_nat (t_gen t)]) (t_held t) (S (t_gen t)) false)
          | s :: rest =>
              match gstep g (t_held t) s with
-             | (g', ONone, h) => (g', mkT rest (t_reads t) h false)
-             | (g', ORead v, h) => (g', mkT rest (t_reads t ++ [v]) h false)
-             | (g', OPanic, h) => (g', mkT [] (t_reads t) h true)
+             | (g', ONone, h) => (g', mkT rest (t_reads t) h (t_gen t) false)
+             | (g', ORead v, h) => (g', mkT rest (t_reads t ++ [v]) h (t_gen t) false)
+             | (g', OPanic, h) => (g', mkT [] (t_reads t) h (t_gen t) true)
              end
          end.
 
@@ -133,14 +139,16 @@ Section Machine.
         end
     end.
 
-  (* what a compile-only program reads when nothing interferes *)
-  Fixpoint expected_reads (prog : list step) : list N :=
+  (* what a program reads when nothing interferes: the constants, and its own generated names 0, 1, 2, ... *)
+  Fixpoint expected_reads_from (k : nat) (prog : list step) : list N :=
     match prog with
     | [] => []
-    | SGetOrInit c :: p => cell_init c :: expected_reads p
-    | SReadEnv :: p => env :: expected_reads p
-    | _ :: p => expected_reads p
+    | SGetOrInit c :: p => cell_init c :: expected_reads_from k p
+    | SReadEnv :: p => env :: expected_reads_from k p
+    | SGenName :: p => N.of_nat k :: expected_reads_from (S k) p
+    | _ :: p => expected_reads_from k p
     end.
+  Definition expected_reads (prog : list step) : list N := expected_reads_from O prog.
 
   Definition finished (t : thread) : bool := match t_todo t with [] => negb (t_panicked t) | _ => false end.
 End Machine.
